@@ -2,7 +2,7 @@
    Model: Model/VConstraint.v.  Proofs: Proofs/RangeSpec.v, RangeAlg.v, RangeOps.v, UnionHull.v, UnionExact.v. *)
 From Coq Require Import List Bool NArith String.
 From PC Require Import Base.Cmp Base.Result Model.Pep440 Spec.Pep440Spec Model.VConstraint
-     Proofs.VersionFacts Proofs.RangeSpec Proofs.RangeAlg Proofs.RangeOps Proofs.UnionHull Proofs.UnionExact Proofs.Contain Proofs.InterExact Proofs.DiffExact Model.VHyp.
+     Proofs.VersionFacts Proofs.RangeSpec Proofs.RangeAlg Proofs.RangeOps Proofs.UnionHull Proofs.UnionExact Proofs.Contain Proofs.InterExact Proofs.DiffExact Proofs.DiffUnion Model.VHyp.
 From PC Require Import Gen.RangeCmp Proofs.GenAgreeRange.
 Import ListNotations.
 
@@ -133,10 +133,38 @@ Example C05_difference_example :
   exists a b c, parse_single false ">=1.0"%string = Ok (VOne a) /\ parse_single false "<=2.0"%string = Ok (VOne b) /\
     good a = true /\ good b = true /\ mreg_r a b = true /\ r_difference a b = Ok c /\ vc_str c = Ok ">2.0"%string.
 Proof. do 3 eexists. repeat split; vm_compute; reflexivity. Qed.
-(* Still open: difference with a union on either side (range minus union, the union state machine), that the operations
-   return at all beyond the range level, and that VersionUnion.of's result is [sorted_c]: it is not in general —
-   '>2.0 || 2.0.post2' is a union the implementation builds (the range excludes post-releases of its bound) whose members
-   overlap in the plain order; such operands are outside the hypotheses and are counted by the check at run time. *)
+(* Proved (the difference clause, every constraint shape: single versions, ranges and unions on either side, through
+   VersionRange.difference(VersionUnion), VersionUnion._inverted and the two-cursor state machine of VersionUnion.difference):
+   exact on regular probes, in the implementation's own member-by-member membership [sem].  Hypotheses, all decidable and
+   evaluated by the check on every generated pair (Api command chyp2; the evidence reports how many pairs meet them): members
+   good, unions sorted and apart, and the bounds mentioned by the two operands mutually regular ([h_mutual]: any two bounds are
+   equal or of different release classes — without it the implementation itself builds improper pieces such as [2.0, 2.0a1]).
+   The statement is about results [Ok c]: that the fuel [difference] passes to the state machine suffices is not shown. *)
+Theorem C05_difference_exact : forall a b c, goodc a = true -> goodc b = true -> sorted_c a = true -> sorted_c b = true ->
+  h_mutual a b = true -> (match a with VOne (RV _) => no_local_hole b | _ => True end) ->
+  difference a b = Ok c ->
+  goodc c = true /\ forall v, wf v = true -> regular_c v a = true -> regular_c v b = true -> sem c v = sem a v && negb (sem b v).
+Proof. exact difference_admits_exactly. Qed.
+Print Assumptions C05_difference_exact.
+(* the complement of a union (VersionUnion._inverted, used by allows / excludes_single_version and by printing) *)
+Theorem C05_inverted_exact : forall B l c, mutual B -> forallb good l = true -> sepb l = true -> incl (lbounds l) B ->
+  inverted l = Ok c ->
+  goodc c = true /\ incl (cbounds c) B /\ forall v, wf v = true -> regB B v = true -> vmem c v = negb (lmem l v).
+Proof.
+  intros B l c MU G S I H. destruct (rng_minus_union_exact B ANY l c MU good_any G S (fun e He => match He with end) I H) as (A1 & A2 & A3).
+  split; [exact A1|]. split; [exact A2|]. intros v Wv R. rewrite (A3 v Wv R), none_of_lmem. reflexivity.
+Qed.
+Print Assumptions C05_inverted_exact.
+Example C05_difference_union_example :
+  exists a b c, parse_constraint_text false false ">=1.0,<2.0 || >3.0,<=4.0 || >=5.0"%string = Ok a /\
+    parse_constraint_text false false ">=1.5,<=3.5 || 5.0 || >6.0"%string = Ok b /\
+    goodc a = true /\ goodc b = true /\ sorted_c a = true /\ sorted_c b = true /\ h_mutual a b = true /\
+    difference a b = Ok c /\ vc_str c = Ok ">=1.0,<1.5 || >3.5,<=4.0 || >5.0,<=6.0"%string.
+Proof. do 3 eexists. repeat split; vm_compute; reflexivity. Qed.
+(* Still open: that the operations return at all beyond the range level (totality), and that VersionUnion.of's result is
+   [sorted_c]: it is not in general — '>2.0 || 2.0.post2' is a union the implementation builds (the range excludes
+   post-releases of its bound) whose members overlap in the plain order; such operands are outside the hypotheses and are
+   counted by the check at run time. *)
 
 
 (* the tie by translation: the bound comparisons of version_range_constraint.py, re-translated from /repo's working tree on
